@@ -41,12 +41,26 @@ def load_sidecar(mod, tolerant=False):
     tree = ast.parse(src, filename=path)
     # spec functions of the side-car compare floats tolerantly too; harness functions
     # (decorated) are left exactly as written
-    for node in tree.body:
-        pass  # spec functions are called in either polarity: they compare exactly
+    spec_names = [n.name for n in tree.body if isinstance(n, ast.FunctionDef) and not n.decorator_list]
+    if tolerant:
+        # every spec function exists in three versions: lenient (default, positive positions),
+        # tight (name__neg, negative positions) and exact (name__exact, mixed positions)
+        extra = []
+        for i, node in enumerate(tree.body):
+            if isinstance(node, ast.FunctionDef) and not node.decorator_list:
+                neg = copy.deepcopy(node)
+                neg.name = node.name + "__neg"
+                TolerantCompare(-1, spec_names).visit(neg)
+                exact = copy.deepcopy(node)
+                exact.name = node.name + "__exact"
+                TolerantCompare(1, spec_names).visit(node)
+                extra.extend([neg, exact])
+        tree.body.extend(extra)
     ast.fix_missing_locations(tree)
     m = types.ModuleType(f"contracts_{mod}")
     m.__file__ = path
     m.__dict__["__tcmp__"] = tcmp
+    m.__dict__["__spec_names__"] = spec_names
     sys.modules[m.__name__] = m
     exec(compile(tree, path, "exec"), m.__dict__)
     cs = list(api.REGISTRY)
@@ -73,6 +87,10 @@ def build(v, named):
             return float(v["$real_approx"])
         if "$tuple" in v:
             return tuple(build(x, named) for x in v["$tuple"])
+        if "$npvec" in v:
+            import numpy
+
+            return numpy.array([build(x, named) for x in v["$npvec"]], dtype=float)
         if "$dict" in v:
             return {build(k, named): build(x, named) for k, x in v["$dict"]}
         if "$ref" in v:
@@ -222,8 +240,18 @@ class TolerantCompare(ast.NodeTransformer):
     hold), in negative positions (antecedent of implies, under `not`) they are tight, and where
     the polarity is mixed (iff) they are exact — so round-off can only make a clause easier."""
 
-    def __init__(self):
-        self.pol = 1
+    def __init__(self, pol=1, spec_names=()):
+        self.pol = pol
+        self.spec_names = set(spec_names)
+
+    def visit_Name(self, node):
+        return node
+
+    def _rename(self, node):
+        """A side-car spec function called in a negative / mixed position uses its tight / exact copy."""
+        if isinstance(node.func, ast.Name) and node.func.id in self.spec_names and self.pol != 1:
+            node.func = ast.Name(id=node.func.id + ("__neg" if self.pol < 0 else "__exact"), ctx=ast.Load())
+        return node
 
     def visit_Call(self, node):
         if isinstance(node.func, ast.Name) and node.func.id == "implies" and len(node.args) == 2:
@@ -239,7 +267,7 @@ class TolerantCompare(ast.NodeTransformer):
             self.pol = saved
             return ast.Call(func=node.func, args=args, keywords=[])
         self.generic_visit(node)
-        return node
+        return self._rename(node)
 
     def visit_UnaryOp(self, node):
         if isinstance(node.op, ast.Not):
@@ -292,7 +320,7 @@ def eval_clause(text, env, oldenv, glob, tolerant=True):
     tree = ast.parse(text.strip(), mode="eval")
     tree = OldRewriter().visit(tree)
     if tolerant:
-        tree = TolerantCompare().visit(tree)
+        tree = TolerantCompare(1, glob.get("__spec_names__", ())).visit(tree)
     tree = ast.fix_missing_locations(tree)
 
     def old_eval(src, bound=None):
@@ -401,6 +429,11 @@ def run(replay, tolerant=False):
         if out["outcome"] == "return":
             env2 = dict(env)
             env2["result"] = result
+            for gname, wit in getattr(c, "ghost_witness", {}).items():
+                try:
+                    env2[gname] = eval_clause(wit, env2, oldenv, glob, False)
+                except Exception as ex:
+                    out["errors"].append(f"ghost witness {gname} raised {type(ex).__name__}: {ex}")
             for i, text in enumerate(c.ensures):
                 try:
                     ok = eval_clause(text, env2, oldenv, glob, tolerant)
